@@ -26,6 +26,9 @@ package api
 
 // ---- node registration (C17): consensus / P2P / TLS / VRF keys unique across nodes ----
 
+//@ import "context"
+//@ import "github.com/oasisprotocol/oasis-core/go/common/crypto/signature"
+//@ import "github.com/oasisprotocol/oasis-core/go/common/node"
 //@ ghost func KeyHolder(l NodeLookup, ctx context.Context, k signature.PublicKey) *node.Node { return ufr[*node.Node]("nodeBySubKey.0", l, ctx, k) }
 
 //@ func VerifyRegisterNodeArgs
